@@ -4,6 +4,9 @@ use crate::pen::Pen;
 use std::cmp::Ordering;
 use std::ops::{Index, IndexMut, Range};
 
+#[cfg(feature = "verif")]
+mod verif;
+
 #[derive(Debug)]
 pub(crate) struct Buffer {
     lines: Vec<Line>,
